@@ -1,7 +1,7 @@
 (* Gc/Proofs_Weak.v — inputs that are only weakly sorted (several entries may share a key and a
    timestamp, e.g. after ingesting foreign SSTs): the collector still equals the specification
    and the lock-step walk still never reports `gc iterator out of sync`. *)
-From Coq Require Import NArith PArith List Bool Lia.
+From Coq Require Import NArith PArith List Bool Lia Permutation.
 From Blue Require Import Gc.Model Gc.Spec Gc.Proofs_Key Gc.Proofs_Det Gc.Proofs_Collect Gc.Proofs_Walk.
 Import ListNotations.
 Open Scope N_scope.
@@ -88,3 +88,74 @@ Qed.
 Theorem collect_eq_spec_weak p now es : wsorted es ->
   collect p es now = Some (map kr (gc_spec p now es)).
 Proof. intros Hs. apply collect_eq_spec, wsorted_contiguous, Hs. Qed.
+
+(* ---- what the walk guarantees when (key, timestamp) pairs repeat ---- *)
+Lemma sublist_nil_r {A} (a : list A) : sublist a [] -> a = [].
+Proof. inversion 1; reflexivity. Qed.
+
+(* against any sub-sequence of a weakly sorted input the walk writes, for each KeyRef of the
+   sub-sequence in turn, the LEFTMOST input entry not yet passed that carries this KeyRef, and hands
+   every other entry to the accumulator: the KeyRefs written are the KeyRefs retained, nothing is
+   lost or invented — but WHICH of several entries with equal key and timestamp is written is
+   decided by position, not by the collector *)
+Lemma walk_list_weak {A} (add : A -> entry -> A) es : forall sub out acc,
+  sublist sub es -> wsorted es ->
+  exists written dropped,
+    walk_list add es (map kr sub) out acc = WOk (out ++ written) (fold_left add dropped acc) /\
+    map kr written = map kr sub /\ sublist written es /\ Permutation es (written ++ dropped).
+Proof.
+  induction es as [|x es IH]; intros sub out acc Hsl Hs.
+  - apply sublist_nil_r in Hsl. subst. exists [], []. cbn. rewrite app_nil_r.
+    repeat split; constructor.
+  - destruct sub as [|r sub'].
+    + exists [], (x :: es). cbn [map]. rewrite walk_list_nil, app_nil_r.
+      repeat split; [constructor|reflexivity].
+    + cbn [map walk_list].
+      assert (Hin : In r (x :: es)) by (eapply sublist_in; [exact Hsl|now left]).
+      assert (Hle : keyref_cmp (kr x) (kr r) <> Gt).
+      { destruct Hin as [<-|Hin]; [rewrite keyref_cmp_refl; discriminate|].
+        eapply wsorted_le_all; eauto. }
+      destruct (keyref_cmp (kr r) (kr x)) eqn:C.
+      * assert (Hsl' : sublist sub' es).
+        { inversion Hsl; subst; [assumption|]. eapply sublist_cons_l; eauto. }
+        destruct (IH sub' (out ++ [x]) acc Hsl' (wsorted_tail _ _ Hs)) as (w & d & Hw & Hk & Hsw & Hp).
+        exists (x :: w), d. rewrite Hw, <- app_assoc. cbn [app map].
+        repeat split.
+        -- f_equal; [symmetry; now apply keyref_cmp_eq|exact Hk].
+        -- now constructor.
+        -- now constructor.
+      * exfalso. apply Hle. now apply keyref_cmp_gt_lt.
+      * assert (Hsl' : sublist (r :: sub') es).
+        { inversion Hsl; subst; [|assumption]. rewrite keyref_cmp_refl in C. discriminate. }
+        destruct (IH (r :: sub') out (add acc x) Hsl' (wsorted_tail _ _ Hs)) as (w & d & Hw & Hk & Hsw & Hp).
+        exists w, (x :: d). cbn [map] in Hw. rewrite Hw. cbn [fold_left].
+        repeat split; [exact Hk|now constructor|now apply Permutation_cons_app].
+Qed.
+
+Theorem gc_walk_weak {A} (add : A -> entry -> A) acc0 p es : wsorted es ->
+  exists written dropped,
+    gc_walk add acc0 p es = WOk written (fold_left add dropped acc0) /\
+    map kr written = map kr (gc_spec p 0 es) /\ sublist written es /\
+    Permutation es (written ++ dropped).
+Proof.
+  intros Hs. pose proof (wsorted_contiguous es Hs) as Hc.
+  rewrite gc_walk_walk_list, drain_g_collector_new by exact Hc.
+  destruct (walk_list_weak add es (gc_spec p 0 es) [] acc0) as (w & d & Hw & H);
+    [apply (gc_spec_sublist p 0 (length es)); auto|exact Hs|].
+  exists w, d. split; [exact Hw|exact H].
+Qed.
+
+(* a weakly sorted input without two adjacent entries of equal key and timestamp is strictly sorted *)
+Definition duplicate_pairs (es : list entry) : Prop :=
+  exists l1 a b l2, es = l1 ++ a :: b :: l2 /\ kr a = kr b.
+
+Lemma wsorted_no_dup_sorted es : wsorted es -> ~ duplicate_pairs es -> sorted es.
+Proof.
+  induction es as [|e es IH]; intros Hs Hnd; [exact I|]. cbn [sorted].
+  split.
+  - apply IH; [eapply wsorted_tail; eauto|].
+    intros (l1 & a & b & l2 & -> & Hk). apply Hnd. exists (e :: l1), a, b, l2. auto.
+  - destruct es as [|e' es']; [exact I|]. destruct Hs as [_ Hle].
+    destruct (keyref_cmp (kr e) (kr e')) eqn:C; [|reflexivity|congruence].
+    exfalso. apply Hnd. exists [], e, e', es'. split; [reflexivity|now apply keyref_cmp_eq].
+Qed.
